@@ -193,6 +193,7 @@ class State(object):
         self.ret = None
         self.trace = []
         self.log = []         # what has been inserted into output streams: [(stream path, kind, payload, width, fill, flags)]
+        self.calls = []       # qualified names of the functions called directly by the function under verification
 
     def copy(self):
         s = State()
@@ -203,6 +204,7 @@ class State(object):
         s.ghost = dict(self.ghost)
         s.elems = dict(self.elems)
         s.log = list(self.log)
+        s.calls = list(self.calls)
         s.ret = self.ret
         s.trace = list(self.trace)
         return s
@@ -1435,6 +1437,14 @@ class Cx(object):
     def trace_member_call(self, st, fn, bound):
         """generated struct codecs call one do_encode / do_decode* per member, in declaration order: the cursor at each
         such call (made directly by the function under verification) is recorded for the layout obligations (C03)"""
+        if len(self.fn_stack) == 1 and self.current:
+            callee = self.ix.qualname(fn)
+            st.calls.append(callee)
+            # frame on the byte order (C19/C03): a function instantiated for endianness E hands E, and nothing else, to
+            # every callee that takes an endianness (also inside loop bodies, hence checked at the call)
+            own, e = endianness_of(self.current[0]), endianness_of(callee)
+            if own is not None and e is not None:
+                self.oblige(st, 'endianness.passed_on(%s)' % callee.split('::')[-1][:40], z3.BoolVal(e == own), 'post')
         if len(self.fn_stack) != 1 or fn.get('name') not in self.TRACED:
             return
         for key in ('data', 'pos'):
@@ -1908,6 +1918,33 @@ def verify_function(cx, fn, contract, timeout_ms=20000):
     result['wall'] = time.time() - t0
     result['sha256'] = None
     return result
+
+
+import re as _re
+
+_E_FUNC = _re.compile(r'(?:^|::)(?:encode_int|decode_int|do_encode|do_decode|do_decode_resize|do_decode_in_place|'
+                      r'do_decode_greedy|encode|decode)<([012])[,>]')
+_E_CLASS = _re.compile(r'(?:^|::)(?:decoder|encoder|decoder_greedy)<([012]),')
+
+
+def endianness_of(qualname):
+    """the prophy::endianness template argument (0 native, 1 little, 2 big) of a codec function, or None"""
+    depth, cut = 0, 0
+    for i, ch in enumerate(qualname):
+        if ch == '<':
+            depth += 1
+        elif ch == '>':
+            depth -= 1
+        elif ch == ':' and depth == 0 and qualname[i:i + 2] == '::':
+            cut = i + 2
+    last = qualname[cut:]           # the function's own name with its template arguments
+    if last in ('encode', 'decode') and 'message<' in qualname and 'message_impl<' not in qualname:
+        return '0'                  # message<T>::encode(void*) / decode(...) without <E>: the native convenience overloads
+    m = _E_FUNC.search('::' + last)
+    if m:
+        return m.group(1)
+    m = _E_CLASS.search(qualname)
+    return m.group(1) if m else None
 
 
 def _file_of(cx, fn):
